@@ -781,7 +781,27 @@ func (c *c29Client) run(ops []C29Op) {
 	}
 }
 
+// runC29 is C29's own run: it keeps the verdicts stated under C29's name.
 func runC29(t *testing.T, scAny any, trace bool) *Outcome {
+	return keepOwned(runC29All(t, scAny, trace), "C29.")
+}
+
+// keepOwned drops the verdicts that belong to other properties' checks.
+func keepOwned(o *Outcome, owners ...string) *Outcome {
+	kept := o.Violations[:0]
+	for _, v := range o.Violations {
+		for _, pre := range owners {
+			if strings.HasPrefix(v.Signature, pre) {
+				kept = append(kept, v)
+				break
+			}
+		}
+	}
+	o.Violations = kept
+	return o
+}
+
+func runC29All(t *testing.T, scAny any, trace bool) *Outcome {
 	sc := scAny.(*C29Scn)
 	o := &Outcome{HorizonOK: true}
 	var all []porcupine.Operation
@@ -869,7 +889,11 @@ func runC29(t *testing.T, scAny any, trace bool) *Outcome {
 			all = append(all, c.ops...)
 			total += len(c.ops)
 		}
-		// afterwards: handle table and caches agree with the backend
+		// afterwards: what a fresh client is told agrees with the backend (judged under the names of the
+		// properties that speak about replies: C02, C04, C07, C26 - kept only when the run belongs to their checks)
+		w.FS.ClearFaults()
+		c29AfterQuiescence(o, w, sc, tracked)
+		// ... and handle table and caches agree with the backend
 		c29Agreement(o, w, sc)
 		for _, c := range clients {
 			c.cl.Close()
@@ -963,6 +987,93 @@ func c29Culprit(model porcupine.Model, all []porcupine.Operation) string {
 }
 
 // c29Agreement: after the run the handle table and the caches agree with the backend.
+// c29AfterQuiescence: every request of the concurrent phase has been answered. A fresh client now looks every
+// tracked name up and lists both directories; with caches enabled and long-lived, whatever a request of the
+// concurrent phase wrongly left behind in a cache is what these replies are made of.
+func c29AfterQuiescence(o *Outcome, w *World, sc *C29Scn, tracked []string) {
+	for _, c := range w.FS.CallsSince(0) {
+		for _, p := range []string{c.Path, pathArg2(c)} {
+			if p != "" && (!strings.HasPrefix(p, "/") || cleanPath(p) != p) {
+				o.Vio("C07.unclean-backend-path", "op="+c.Op+",concurrent", "backend call %s(%q) made during the concurrent phase is not absolute and normalized", c.Op, p)
+				return
+			}
+		}
+	}
+	cl, err := w.Dial("10.0.0.99:999", RootCred, nil)
+	if err != nil {
+		return
+	}
+	defer cl.Close()
+	root, _, err := cl.Mount("/")
+	if err != nil || root == nil {
+		return
+	}
+	dl, err := cl.Lookup(root, "d")
+	if err != nil || dl == nil || dl.Status != 0 {
+		return
+	}
+	dirs := [2][]byte{root, dl.FH}
+	for _, p := range tracked {
+		d, name := splitPath(p)
+		r, err := cl.Lookup(dirs[d], name)
+		if err != nil || r == nil {
+			return
+		}
+		n := w.FS.Lookup(p)
+		o.Tick()
+		switch {
+		case r.Status == nfsclient.NFS3ERR_NOENT && n != nil:
+			o.Vio("C02.cache-hides-completed-mutation", "kind=existing-name-not-found,after-concurrent-phase", "after every request of the concurrent phase had been answered, LOOKUP %s says NFS3ERR_NOENT; the backend has it", p)
+		case r.Status == 0 && n == nil:
+			o.Vio("C02.cache-hides-completed-mutation", "kind=vanished-name-found,after-concurrent-phase", "after every request of the concurrent phase had been answered, LOOKUP %s succeeds; the backend has no such object", p)
+		case r.Status == 0 && r.Attr != nil:
+			isDir := r.Attr.Type == 2
+			if isDir != (n.Kind == simfs.KindDir) {
+				o.Vio("C04.type-vs-backend", "proc=LOOKUP,after-concurrent-phase", "LOOKUP %s reports type %d, the backend has kind %d", p, r.Attr.Type, n.Kind)
+			} else if n.Kind == simfs.KindFile && r.Attr.Size != uint64(n.Size) {
+				o.Vio("C04.size-vs-backend", "proc=LOOKUP,after-concurrent-phase", "after every request of the concurrent phase had been answered, LOOKUP %s reports size %d, backend lstat says %d", p, r.Attr.Size, n.Size)
+			} else if n.Kind != simfs.KindSymlink && r.Attr.Mode&0o777 != uint32(n.Perm.Perm()) {
+				o.Vio("C04.mode-vs-backend", "proc=LOOKUP,after-concurrent-phase", "after every request of the concurrent phase had been answered, LOOKUP %s reports mode %o, backend lstat says %o", p, r.Attr.Mode&0o777, n.Perm.Perm())
+			}
+		}
+	}
+	snap := w.FS.Snapshot()
+	for d, dn := range c29Dirs {
+		x, _, err := cl.NFS(nfsclient.NFSProcReaddirplus, nfsclient.ArgsReaddirplus(dirs[d], 0, [8]byte{}, 32768, 65536))
+		if err != nil || x == nil {
+			return
+		}
+		rr, ok := x.(*nfsclient.ReaddirRes)
+		if !ok || rr.Status != 0 {
+			continue
+		}
+		got := map[string]bool{}
+		for _, e := range rr.Entries {
+			if e.Name != "." && e.Name != ".." {
+				got[e.Name] = true
+			}
+		}
+		pre := dn
+		if pre != "/" {
+			pre += "/"
+		}
+		o.Tick()
+		for _, n := range snap {
+			if n.Path != "/" && strings.HasPrefix(n.Path, pre) && !strings.Contains(n.Path[len(pre):], "/") {
+				name := n.Path[len(pre):]
+				if !got[name] {
+					o.Vio("C26.readdir-missing-entry", "plus=true,after-concurrent-phase", "after every request of the concurrent phase had been answered, READDIRPLUS of %s (one page, eof=%v) does not list %q, which the backend has", dn, rr.EOF, name)
+				}
+				delete(got, name)
+			}
+		}
+		for name := range got {
+			o.Vio("C26.readdir-extra-entry", "plus=true,after-concurrent-phase", "after every request of the concurrent phase had been answered, READDIRPLUS of %s lists %q, which the backend does not have", dn, name)
+			break
+		}
+	}
+}
+
 func c29Agreement(o *Outcome, w *World, sc *C29Scn) {
 	o.Tick()
 	for _, e := range absnfs.VerifAttrCacheDump(absnfs.VerifAttrCache(w.NFS)) {
